@@ -635,6 +635,11 @@ namespace occa {
         token_t *token = NULL;
         (*this) >> token;
 
+        // The source can end while a token is expanded, for example [#if defined (]
+        if (!token) {
+          break;
+        }
+
         if (token->type() & tokenType::newline) {
           incrementNewline();
           lineTokens.push_back(token);
